@@ -63,6 +63,10 @@ META = {
 PAD_LEVELS = 16
 PROG_IN = b'10 REM inside\r\n20 A=1\r\n30 END\r\n\x1a'
 PROG_OUT = b'10 PRINT "ESCAPED"\r\n20 END\r\n\x1a'
+# the same program tokenised (SAVE) and protected (SAVE ,P)
+PROG_BIN = b'\xff{\x12\n\x00\x8f inside\x00\x83\x12\x14\x00A\xe7\x12\x00\x89\x12\x1e\x00\x81\x00\x00\x00\x1a'
+PROG_PROT = (b'\xfe\xe4\xa9\xbfT\xdc\x12\xc6\x83\x16p\x05\x95\x82$\xfd\xa9\xb2\xb2,\x14\x13\xdd\x9e)\xd6u\x83'
+             b'\xed\x9d\x1a')
 BIN = b'\xfd' + struct.pack('<HHH', 0xb800, 0, 4) + b'v\x07f\x07' + b'\x1a'
 
 # kind -> (statement text using P$ and Q$, number of path arguments, needs a program in memory,
@@ -199,6 +203,8 @@ class Sandbox(object):
         _w(j(self.root, 'IN1.TXT'), b'inside 1\r\n')
         _w(j(self.root, 'PROG.BAS'), PROG_IN)
         _w(j(self.root, 'BIN.M'), BIN)
+        _w(j(self.root, 'BINPROG.BAS'), PROG_BIN)
+        _w(j(self.root, 'PROTPROG.BAS'), PROG_PROT)
         _w(j(self.root, 'lower.txt'), b'inside lower\r\n')
         _w(j(self.root, 'Long Inside Name.text'), b'inside long\r\n')
         _w(j(self.root, 'SUB1', 'F1.TXT'), b'f1\r\n')
@@ -413,7 +419,8 @@ SENT_NAMES = [b'SENT0.TXT', b'SENT1.TXT', b'SENT1.BAS', b'SENT2.TXT', b'SENT2.BA
               b'SENT3.TXT', b'SENT3.BAS', b'SIBLING', b'SUBSIB', b'SDIR0', b'SDIR1', b'SDIR2', b'EMPTYD',
               b'INNER2.TXT', b'INNER3.TXT', b'A', b'B', b'ROOT', b'OTHER', b'CWD', b'sent0low.txt',
               b'Long Sentinel Name.text', b'caf\x82.txt']
-IN_NAMES = [b'SUB1', b'SUBSUB', b'SUB2', b'IN1.TXT', b'PROG.BAS', b'PROG', b'PROG2', b'BIN.M', b'LOWER.TXT',
+IN_NAMES = [b'SUB1', b'SUBSUB', b'SUB2', b'IN1.TXT', b'PROG.BAS', b'PROG', b'PROG2', b'BIN.M', b'LOWER.TXT', b'BINPROG',
+            b'BINPROG.BAS', b'PROTPROG',
             b'lower.txt', b'OSUB', b'OTH.TXT', b'O1.TXT', b'F1.TXT', b'F2.TXT', b'NEW.TXT', b'NEWDIR', b'NEW',
             b'Long Inside Name.text']
 DOT_SEGS = [b'..', b'..', b'..', b'..', b'.. ', b'.. ', b'..  ', b'..\t', b'..\r', b'..\n', b'..\x0b', b'..\x0c',
@@ -547,7 +554,8 @@ BARE_PATHS = [
     b'..\x00', b'A\x00B', b'', b' ', b'IN1.TXT', b'PROG.BAS', b'PROG', b'BIN.M', b'SUB1', b'SUB2', b'SUB1\\F1.TXT',
     b'SUB1\\PROG2', b'D:OTH.TXT', b'D:\\OSUB\\O1.TXT', b'NEW.TXT', b'NEWDIR', b'..\\IN1.TXT', b'..\\..\\PROG.BAS',
     b'..\\..\\PROG', b'\\..\\BIN.M', b'..\\SUB1', b'..\\SUB2', b'..\\NEW2.TXT', b'..\\NEWDIR2', b'Long Inside Name.text',
-    b'lower.txt', b'LOWER.TXT', b'AB:X', b':X', b'AB:..\\X', b'CON', b'NUL', b'x' * 255,
+    b'lower.txt', b'LOWER.TXT', b'AB:X', b':X', b'AB:..\\X', b'CON', b'NUL', b'x' * 255, b'BINPROG', b'BINPROG.BAS',
+    b'PROTPROG', b'PROTPROG.BAS', b'..\\BINPROG',
 ]
 
 
